@@ -457,6 +457,71 @@ fn run_report_counts(cx: &mut CaseCx, case: &Value) {
   cx.outcome(format!("t={}", t));
 }
 
+
+/// "for any 32-byte client randomness shared by the clients": randomness VALUES with structure (all zero, all
+/// ones, one bit, repeated bytes, a previous tag, the measurement itself padded) instead of derived ones
+fn run_randomness_values(cx: &mut CaseCx, case: &Value) {
+  let t = case["t"].as_u64().unwrap() as u32;
+  let meas = b"https://example.com/randomness-values".to_vec();
+  let epoch = b"epoch".to_vec();
+  let mut vals: Vec<(String, [u8; 32])> = vec![("all zero".into(), [0u8; 32]), ("all 0xff".into(), [0xff; 32]), ("0x01 repeated".into(), [1u8; 32]), ("0x80 then zeros".into(), { let mut b = [0u8; 32]; b[0] = 0x80; b }), ("zeros then 0x01".into(), { let mut b = [0u8; 32]; b[31] = 1; b }), ("low half zero".into(), { let mut b = [0xa5u8; 32]; for x in b.iter_mut().take(16) { *x = 0; } b }), ("high half zero".into(), { let mut b = [0xa5u8; 32]; for x in b.iter_mut().skip(16) { *x = 0; } b })];
+  // a value that was produced earlier: the tag and the key-stream of another report
+  let r0 = local_randomness(&meas, &epoch, t);
+  if let Ok(m0) = gen_report(&meas, &epoch, t, &r0, &None) {
+    let mut b = [0u8; 32];
+    b.copy_from_slice(&m0.tag[..32]);
+    vals.push(("the tag of an earlier report".into(), b));
+  }
+  let mut padded = [0u8; 32];
+  padded[..meas.len().min(32)].copy_from_slice(&meas[..meas.len().min(32)]);
+  vals.push(("the measurement's first 32 bytes".into(), padded));
+  let auxa = aux_alphabet();
+  let mut tags: Vec<Vec<u8>> = vec![];
+  for (name, rnd) in vals.iter() {
+    let n = t as usize + 1;
+    let mut msgs = vec![];
+    let mut auxs = vec![];
+    for i in 0..n {
+      getrandom::verif::set_group(i as u32 + 1);
+      let aux = auxa[i % auxa.len()].clone();
+      match gen_report(&meas, &epoch, t, rnd, &aux) {
+        Ok(m) => {
+          msgs.push(m);
+          auxs.push(aux);
+        }
+        Err(e) => {
+          cx.viol("C01/generate-failed", format!("Message::generate with client randomness {} failed: {}", name, e), json!({"randomness": name, "t": t}));
+          return;
+        }
+      }
+    }
+    tags.push(msgs[0].tag.clone());
+    for sel in [(0..t as usize).collect::<Vec<_>>(), (1..n).rev().collect()] {
+      let shares: Vec<sta_rs::Share> = sel.iter().map(|&i| msgs[i].share.clone()).collect();
+      cx.eval();
+      cx.count("states", 1);
+      cx.count("transitions", 1);
+      cx.nontrivial(fnv_str(&format!("{}|{}|{:?}", t, name, sel)));
+      match recover_msg(&shares) {
+        Ok(Ok(m)) => {
+          for i in 0..n {
+            if !matches!(open_report(&msgs[i], &m, &epoch), Ok((mm, aa)) if mm == meas && aa == auxs[i]) {
+              cx.viol("C01/randomness-value/decrypt-mismatch", format!("client randomness {}: report {} does not open to its client's inputs", name, i), json!({"randomness": name, "t": t, "report": i}));
+              return;
+            }
+          }
+          cx.count("ok_recoveries", 1);
+        }
+        other => {
+          cx.viol("C01/randomness-value/recover-failed", format!("client randomness {} (t={}): {} matching reports do not recover: {:?}", name, t, sel.len(), other.map(|r| r.map(|_| ()))), json!({"randomness": name, "t": t}));
+          return;
+        }
+      }
+    }
+  }
+  cx.outcome(format!("t={}", t));
+}
+
 /// magnitudes of the payload: measurements and associated data at and around 2^16 and 2^20 bytes (thorough 2^24)
 fn run_large_payloads(cx: &mut CaseCx, case: &Value) {
   let mlen = case["mlen"].as_u64().unwrap() as usize;
@@ -733,6 +798,13 @@ pub fn spec() -> PropSpec {
         },
         run: run_large_payloads,
         min_counts: &[("large_opened", 100)],
+      },
+      Check {
+        name: "randomness-values",
+        rule: "client randomness given as a VALUE (all zero, all 0xff, repeated byte, single top / bottom bit, low / high half zero, the tag of an earlier report, the measurement's own bytes) for t in {1,2,3,5}: t+1 reports with all associated-data shapes, first t and last t reversed: recover, every report opens to its client's inputs",
+        gen: |_| [1u64, 2, 3, 5].iter().map(|t| json!({"t": t})).collect(),
+        run: run_randomness_values,
+        min_counts: &[("ok_recoveries", 60)],
       },
       Check {
         name: "boundary-tags",
